@@ -369,14 +369,18 @@ func TestNoSecretsGuard(t *testing.T) {
 		// 2. exporting, from a handle obtained through the insecure path
 		full, err := insecurecleartextkeyset.Read(&keyset.MemReaderWriter{Keyset: cloneKeyset(c.ks)})
 		switch {
-		case mislabelled:
+		case mislabelled && err != nil:
 			// not a valid keyset: nothing to export (the registered parsers refuse the wrong label)
-			if err == nil {
-				evid.Add("mislabelled_accepted_by_insecure_read", 1)
-			}
+			evid.Add("mislabelled_refused_by_insecure_read", 1)
 		case err != nil:
 			rt.Fatalf("%v\ninsecurecleartextkeyset.Read of a valid keyset: %v", c, err)
 		default:
+			if mislabelled {
+				// The insecure read took the mislabelled entry: the handle now holds real secret key material
+				// (c.secret is true), so every no-secrets export must fail and write nothing - excused only
+				// through the listed mislabelled-secret-key-accepted:<type> signatures, like the imports above.
+				evid.Add("mislabelled_accepted_by_insecure_read", 1)
+			}
 			var bbuf, jbuf bytes.Buffer
 			mem := &keyset.MemReaderWriter{}
 			for _, w := range []struct {
@@ -395,7 +399,19 @@ func TestNoSecretsGuard(t *testing.T) {
 				}},
 			} {
 				err := full.WriteWithNoSecrets(w.w)
-				verdict("Handle.WriteWithNoSecrets("+w.name+")", err)
+				if mislabelled {
+					// The listed mislabelled-secret-key-accepted:<type> findings are about the IMPORT entry points
+					// (the parser does not check the declared material type).  Once inside a handle the key is an
+					// ordinary secret key object, and the export guard sees what the serializer writes: an export
+					// that succeeds is a finding of its own (signature mislabelled-secret-key-exported:<type>).
+					evid.Add(fmt.Sprintf("mislabelled_export_refused=%v", err != nil), 1)
+					if err == nil {
+						knownOrFail(rt, strings.Replace(mislabelledSig, "-accepted:", "-exported:", 1), fmt.Sprintf("%v\nHandle.WriteWithNoSecrets(%s) EXPORTED a handle whose entry #%d is a secret key that came in under a public / remote label", c, w.name, c.firstAt))
+						continue
+					}
+				} else {
+					verdict("Handle.WriteWithNoSecrets("+w.name+")", err)
+				}
 				if err != nil {
 					if w.size() != 0 {
 						rt.Fatalf("%v\nHandle.WriteWithNoSecrets(%s) returned an error but wrote %d bytes / a keyset", c, w.name, w.size())
@@ -409,6 +425,9 @@ func TestNoSecretsGuard(t *testing.T) {
 			}
 			// 3. exporting from handles a Manager built: from the handle as a whole, and from its key
 			// objects added one by one (entries that never had a proto form of their own)
+			if mislabelled {
+				break
+			}
 			if mh, err := keyset.NewManagerFromHandle(full).Handle(); err != nil {
 				rt.Fatalf("%v\nNewManagerFromHandle(handle).Handle(): %v", c, err)
 			} else {
@@ -507,6 +526,12 @@ func drawHandle(rt *rapid.T, max int, usableOnly bool) *handleCase {
 			// Handle.KeysetInfo / String panic for a key without serialization; such keys cannot be
 			// written at all.  Not this property's concern.
 			evid.Add("member_dropped/not-serializable/"+info.Type, 1)
+			continue
+		}
+		if info.Lossy {
+			// a deriver key whose derived-key parameters are JWT parameters with a custom kid does not read
+			// back Equal (C12's listed jwt-custom-kid-parameters-lossy finding): not this property's concern
+			evid.Add("member_dropped/lossy-serialization/"+info.Type, 1)
 			continue
 		}
 		if info.HasID {
